@@ -240,6 +240,28 @@ class Rec:
             recs, _, clean = parse_ukv(after)
             if not clean:
                 self.viol("R2[ukv-a+put+r]", "file-not-wellformed-after-append", cutc, "after recovery+append the file does not parse as header|records to its end", case)
+        # R2t: the recovery append is the smallest possible record (shorter than any torn tail)
+        self.path.write_bytes(img)
+
+        def r2t():
+            with UKVFile(self.path, mode="a") as h:
+                h.put(b"T", b"")
+            return self.read_ukv("r")
+
+        if self._try("R2t[ukv-a+tiny-put+r]", r2t, committed, session, {b"T": b""}, cutc, case, must_have=(b"T",)):
+            recs, _, clean = parse_ukv(self.path.read_bytes())
+            if not clean:
+                self.viol("R2t[ukv-a+tiny-put+r]", "file-not-wellformed-after-append", cutc, "after recovery + a tiny append the file does not parse as header|records to its end", case)
+        n += 1
+        # R0: open for append and close again without writing, then read
+        self.path.write_bytes(img)
+
+        def r0():
+            UKVFile(self.path, mode="a").close()
+            return self.read_ukv("r")
+
+        self._try("R0[ukv-a+close+r]", r0, committed, session, {}, cutc, case)
+        n += 1
         if coll:
             self.path.write_bytes(img)
 
